@@ -9,7 +9,7 @@ import (
 	"verifharness/stats"
 )
 
-const ruleC01 = "rapid state machine: generated table schema (hash-only / hash+range, S/N/B keys), then Put / UpdateItem (SET, REMOVE, ADD, DELETE, upsert of absent keys) / DeleteItem (with and without ALL_OLD) / GetItem over a pool of 3-6 keys, a fifth of the writes carrying a generated condition, executed on the SDK v1 and v2 clients and on the reference map model; after every step GetItem of every pool key, a full Scan, DescribeTable.ItemCount and the SortedKeys/Data white-box invariant are compared. Non-trivial = history touching >= 2 distinct keys and containing an overwrite, a delete-then-reput, an update-created item or a delete of an absent key; distinct = distinct hash of the executed operation list."
+const ruleC01 = "rapid state machine: generated table schema (hash-only / hash+range, S/N/B keys), then Put / UpdateItem (SET, REMOVE, ADD, DELETE, upsert of absent keys) / DeleteItem (with and without ALL_OLD) / GetItem over a pool of 3-6 keys, a fifth of the writes carrying a generated condition, and writes that are refused (key attribute missing or of the wrong type, wrongly typed index key: the complete internal snapshot must be unchanged; if the implementation accepts a request DynamoDB rejects, the case ends there), executed on the SDK v1 and v2 clients and on the reference map model; after every step GetItem of every pool key, a full Scan, DescribeTable.ItemCount and the SortedKeys/Data white-box invariant are compared. Non-trivial = history touching >= 2 distinct keys and containing an overwrite, a delete-then-reput, an update-created item or a delete of an absent key; distinct = distinct hash of the executed operation list."
 
 // TestC01 decides property C01.
 func TestC01(t *testing.T) {
@@ -22,6 +22,7 @@ func TestC01(t *testing.T) {
 		o := avOpts(3, true)
 		g := newTgen(rt, s, o, rapid.IntRange(3, 6).Draw(rt, "poolSize"))
 		w.pool[s.Table] = g.keys
+		g.failClasses = []string{"index-key-type-put", "index-key-type-update", "wrong-typed-key", "missing-key-attr"}
 		var flagOverwrite, flagReput, flagUpsert, flagDelAbsent bool
 		touched := map[string]bool{}
 		deleted := map[string]bool{}
@@ -131,6 +132,23 @@ func TestC01(t *testing.T) {
 			"get": func(rt *rapid.T) {
 				_, _, f := w.do(model.Op{Kind: "Get", Table: s.Table, Key: g.key(rt)})
 				fail(f)
+			},
+			"rejectedWrite": func(rt *rapid.T) {
+				// a write that is refused (malformed key, wrongly typed index key) is
+				// not a successful write: what GetItem returns must not change
+				if rapid.IntRange(0, 2).Draw(rt, "reallyRejected") != 0 {
+					return
+				}
+				op, class := g.failingOp(rt, w.m)
+				if op.Kind == "Get" {
+					return
+				}
+				op.TrySpec = true
+				_, status, f := w.do(op)
+				fail(f)
+				if status == stepRejected || status == stepDone {
+					st.Class("refused-write-" + class)
+				}
 			},
 			"": func(rt *rapid.T) {
 				fail(w.maybeCheck())
